@@ -164,6 +164,10 @@ def generate(tier):
         for perm in it.permutations(range(total)):
             cases.append({"net": net, "n": n, "map": list(perm), "kind": "dynamics"})
             cases.append({"net": net, "n": n, "map": list(perm), "kind": "stationary"})
+    # the same mapper object re-used after its map was changed
+    for net, n in (("chain", {"A": 3, "B": 3}), ("merge", {"A": 1, "B": 2, "C": 3}), ("split", {"A": 1, "B": 2, "C": 3})):
+        for first, second in it.permutations(list(it.permutations(range(3))), 2):
+            cases.append({"net": net, "n": n, "map": list(second), "first_map": list(first), "kind": "dynamics"})
     return cases
 
 
@@ -180,7 +184,14 @@ def check(case):
     nt = case["map"] != sorted(case["map"])
     txt = f"{case}"
     try:
-        lin1 = LinearLabelMapper(base, label_variables=dict(n), label_maps=maps).build_model(concs=concs, fluxes=fluxes, external_label=1.0)
+        if case.get("first_map") is not None:
+            # one mapper object, built once with another map for v1, then given this map and built again
+            mapper = LinearLabelMapper(base, label_variables=dict(n), label_maps={**aux, "v1": list(case["first_map"])})
+            mapper.build_model(concs=concs, fluxes=fluxes, external_label=1.0)
+            mapper.label_maps["v1"] = list(case["map"])
+            lin1 = mapper.build_model(concs=concs, fluxes=fluxes, external_label=1.0)
+        else:
+            lin1 = LinearLabelMapper(base, label_variables=dict(n), label_maps=maps).build_model(concs=concs, fluxes=fluxes, external_label=1.0)
     except Exception as exc:  # noqa: BLE001
         return outcome(False, "linear-build-raised", symptom=f"linear-build-raised:{type(exc).__name__}", nontrivial=nt, detail=f"{type(exc).__name__}: {exc} | {txt}")
     lin_vars = lin1.get_variable_names()
